@@ -240,8 +240,12 @@ def oracle(case, impl):
             chain = [n for _, n in levels(r["m"]) if n is not None]
             break
     if chain is None:
-        STATS["judged:no(no ok run)"] += 1
-        return None
+        # no accepted run to read the chain from: only a command without any subcommand (declared or
+        # external) has a known chain
+        if cmd["subs"] or cmd.get("ext") or "allow_external_subcommands" in cmd["settings"]:
+            STATS["judged:no(no ok run)"] += 1
+            return None
+        chain = []
     lv = chain_levels(cmd, chain)
     if lv is not None:
         # a declared name can also be reached as an *external* subcommand (its matches hold the
@@ -270,7 +274,14 @@ def oracle(case, impl):
         if not (rc["kind"] == "err" and rc["ekind"] == ra["ekind"]):
             return "a token after `--` was taken as a help/version request: with tail %s, without tail %s" % (
                 parts[0][:80], parts[2][:80])
-    # ... or a flag/option/subcommand: with an innocuous tail of the same length the line is accepted
+    # ... or a flag/option/subcommand.  An error raised while the prefix is read shows up identically
+    # without the tail; any other flag/option/subcommand-class error means a tail token was classified
+    # (the positionals of this level absorb every token, so there is no overflow)
+    if ra["kind"] == "err" and ra["ekind"] in ("UnknownArgument", "InvalidSubcommand", "NoEquals") \
+            and not (rc["kind"] == "err" and rc["ekind"] == ra["ekind"]):
+        return "tail rejected with %s (without the tail: %s): a token after `--` was classified" % (
+            ra["ekind"], parts[2][:60])
+    # the same, relative to an innocuous tail of the same length
     if rb["kind"] == "ok" and ra["kind"] == "err" and ra["ekind"] in CLASSIFYING_KINDS:
         return "tail rejected with %s although the same line with innocuous words after `--` is accepted" % ra["ekind"]
     if ra["kind"] != "ok":
@@ -308,8 +319,10 @@ def oracle(case, impl):
                     cmdline_entries(ea, largs), cmdline_entries(eb, largs))
     if rc["kind"] == "ok":
         lc = levels(rc["m"])
+        skip = set()        # (global arguments are propagated between levels: one skip set for the chain)
+        for _, _, largs in lv:
+            skip |= override_related(largs)
         for (ea, _), (ec, _), (_, _, largs) in zip(la, lc, lv):
-            skip = override_related(largs)
             if cmdline_entries(ea, largs, skip) != cmdline_entries(ec, largs, skip):
                 return "options given before `--` differ with and without the tail: %r vs %r" % (
                     cmdline_entries(ea, largs, skip), cmdline_entries(ec, largs, skip))
